@@ -710,8 +710,16 @@ func c09Run(c *engine.Ctx) {
 	// module headers
 	c.Sub("modules")
 	if c.Shard == 0 {
-		for _, src := range []string{`module {a: 1}; def f: 1;`, `module {"a": [1, {"b": null}]}; import "m" as m; m::f`, `import "m" as $d {search: "./"}; include "n"; $d::d`, `include "n" {a: true, b: 1.5, c: "s"}; f`,
-			`import "a" as a; import "b" as $b; def f: a::g($b); f`, `module {}; .`, `import "m" as m {}; 1`} {
+		// module directives: every combination of path spelling x directive x metadata
+		var dirs []string
+		for _, path := range []string{`"m"`, `""`, `"a/b"`, `"é \\\" x"`, `"\u0041"`, `"../m"`, `"m.jq"`} {
+			for _, meta := range []string{"", " {}", ` {search: "./"}`, ` {a: [1, {"b": null}], "c": 1.5, d: true}`} {
+				dirs = append(dirs, "import "+path+" as x"+meta+"; 1", "import "+path+" as $x"+meta+"; 1", "include "+path+meta+"; 1",
+					"import "+path+" as x"+meta+"; include "+path+meta+"; import "+path+" as $y"+meta+"; def f: 1; f")
+			}
+		}
+		for _, src := range append(dirs, `module {a: 1}; def f: 1;`, `module {"a": [1, {"b": null}]}; import "m" as m; m::f`, `import "m" as $d {search: "./"}; include "n"; $d::d`, `include "n" {a: true, b: 1.5, c: "s"}; f`,
+			`import "a" as a; import "b" as $b; def f: a::g($b); f`, `module {}; .`, `import "m" as m {}; 1`) {
 			q, err := gojq.Parse(src)
 			c.Eval()
 			if err != nil {
